@@ -42,7 +42,7 @@ REQUIRED_COUNTERS = [
     "c16.spmatrix.duplicates", "c16.spmatrix.explicit-zeros", "c16.spmatrix.empty-pattern", "c16.spmatrix.size-argument",
     "c16.index.list-neg", "c16.index.imat-neg", "c16.index.slice", "c16.index.int", "c16.index.negint",
     "c16.operands.sparse-sparse", "c16.operands.sparse-dense", "c16.operands.dense-sparse", "c16.operands.sparse-number",
-    "c16.operands.sparse-1x1", "c16.partial.True", "c16.base.gemm.all-sparse-complex-partial-one-conjugate", "c16.tc.d", "c16.tc.z", "c16.ccs-checks",
+    "c16.operands.sparse-1x1", "c16.spdiag.sparse-row-vector", "c16.partial.True", "c16.base.gemm.all-sparse-complex-partial-one-conjugate", "c16.tc.d", "c16.tc.z", "c16.ccs-checks",
     "c16.shape.zero-dim", "c16.pattern-unchanged-checks",
 ]
 WATCHDOG = {"quick": 600, "thorough": 3000}
@@ -290,7 +290,7 @@ def run(ctx):
 
         def g_spdiag():
             t = target()
-            kind = rng.choice(["column", "row", "sparse-vector", "list", "list", "numbers"])
+            kind = rng.choice(["column", "row", "sparse-vector", "sparse-row-vector", "list", "list", "numbers"])
             k = rng.randint(0, 4)
             tc = rng.choice("idz")
             if kind == "column":
@@ -299,6 +299,9 @@ def run(ctx):
                 src = "spdiag(%s)" % dlit(rng, tc, 1, max(k, 1))
             elif kind == "sparse-vector":
                 src = "spdiag(%s)" % splitc(rng, max(k, 1), 1, stc(rng))[0]
+            elif kind == "sparse-row-vector":
+                ctx.count("c16.spdiag.sparse-row-vector")
+                src = "spdiag(%s)" % splitc(rng, 1, max(k, 2), stc(rng))[0]
             elif kind == "numbers":
                 src = "spdiag(%s)" % vals_src([rnum(rng, rng.choice("id")) for _ in range(k)])
             else:
